@@ -216,20 +216,6 @@ partial def chainBreak (x : Node) (seen : Bool) : Bool × Bool :=
 def hasPostfixAfterNewline (n : Node) : Bool :=
   anyNode (fun x => x.name = "identifier" && (chainBreak x false).1) n
 
-def isOp (n : Node) : Bool := n.binding != 0 && (n.led != .none || n.name = "not")
-
-/-- class `keyword-operand-brackets`: an operator expression as the operand of a sink attribute, or a
-    `let` expression as an operand of an operator (ppNeedsBrackets does not regard these keywords as
-    prefix operators and never writes the brackets) -/
-partial def hasKeywordOperand (n : Node) (parent : Option Node) : Bool :=
-  (["kindmatch", "scopematch", "statematch", "priority", "suppresses"].contains n.name &&
-    n.children.any fun c => match c with | some c => isOp c | none => false) ||
-  (n.name = "let" && (match parent with | some p => isOp p | none => false)) ||
-  -- `let (a := 1)`: the operand of let is parsed with right binding 20, an infix operand binding weaker is lost
-  (n.name = "let" && n.children.any fun c => match c with
-    | some c => c.led != .none && c.binding != 0 && c.binding ≤ 20 | none => false) ||
-  n.children.any fun c => match c with | some c => hasKeywordOperand c (some n) | none => false
-
 def runCase (payload : String) : String :=
   match payload.splitOn " " with
   | _src :: flags :: rest =>
@@ -245,9 +231,8 @@ def runCase (payload : String) : String :=
         let mul := hasMulRight ast
         let (inside, ownBlank) := insideFlags ast true
         let sign := hasSignStart ast
-        let kw := hasKeywordOperand ast none
         let ev := if ev = "1" || ev = "3" then "1" else "0"
-        let post := hasUnstablePost ast txt || inside || hasPostfixAfterNewline ast || kw
+        let post := hasUnstablePost ast txt || inside || hasPostfixAfterNewline ast
         let wild := post || ownBlank || hasPreComment ast || blockThenStatement ast
         -- cross-check of the expression-level model (the one the theorems are about)
         let (drift, xc) : Option String × Bool :=
@@ -270,8 +255,7 @@ def runCase (payload : String) : String :=
           let line (rt : String) := "txt=" ++ hexEnc txt ++ " rt=" ++ rt ++ " idem=" ++ idem ++
             (if ff then " ff=ok" else "") ++ (if ev = "1" && rt = "ok" then " beh=ok" else "")
           let kf : Option String :=
-            if kw then some "keyword-operand-brackets"
-            else if post then some "newline-inside-statement"
+            if post then some "newline-inside-statement"
             else if sign then some "stmt-starts-with-sign"
             else if raw then some "raw-string-kind"
             else if mul then some "mul-right-brackets"
